@@ -698,7 +698,8 @@ var c09ExtraLens = [5]int{0, 1, 8, 253, 998}
 
 func c09Cfg(mode int, ver int) ev.Cfg {
 	return ev.Cfg{RowsV2: c09Modes[mode].v2, TableID4: c09Modes[mode].id4, Checksum: false,
-		NumTypes: c09Versions[ver].nt, ServerVersion: c09Versions[ver].sv, GTIDPostHeader: 42, ServerID: 1}
+		NumTypes: c09Versions[ver].nt, ServerVersion: c09Versions[ver].sv, GTIDPostHeader: 42, ServerID: 1,
+		PadOnes: (mode+ver)%2 == 1}
 }
 
 // c09TableID draws a table id whose bytes are pairwise distinct and non-zero
